@@ -1305,6 +1305,30 @@ where
         edge: &EdgeOfFunc<'id, Self>,
         literal_set: &EdgeOfFunc<'id, Self>,
     ) -> AllocResult<EdgeOfFunc<'id, Self>> {
+        /// Remove all literals above `until` from the literal set `set`
+        ///
+        /// In contrast to [`crate::set_pop()`], this respects complement
+        /// edges and follows the non-`⊥` cofactor, i.e., it also works for
+        /// negative literals.
+        #[inline] // tail-recursive
+        fn literal_set_pop<'a, M: Manager<EdgeTag = EdgeTag, Terminal = BCDDTerminal>>(
+            manager: &'a M,
+            set: Borrowed<'a, M::Edge>,
+            until: LevelNo,
+        ) -> Borrowed<'a, M::Edge>
+        where
+            M::InnerNode: HasLevel,
+        {
+            match manager.get_node(&set) {
+                Node::Inner(n) if n.level() < until => {
+                    let (t, e) = collect_cofactors(set.tag(), n);
+                    let next = if is_false(manager, &t) { e } else { t };
+                    literal_set_pop(manager, next, until)
+                }
+                _ => set,
+            }
+        }
+
         fn inner<M: Manager<EdgeTag = EdgeTag, Terminal = BCDDTerminal>>(
             manager: &M,
             edge: Borrowed<M::Edge>,
@@ -1318,14 +1342,14 @@ where
             };
             let level = node.level();
 
-            let literal_set = crate::set_pop(manager, literal_set, level);
+            let literal_set = literal_set_pop(manager, literal_set, level);
             let (literal_set, c) = match manager.get_node(&literal_set) {
                 Node::Inner(node) if node.level() == level => {
                     let (t, e) = collect_cofactors(literal_set.tag(), node);
                     if is_false(manager, &e) {
-                        (e, true)
+                        (t, true)
                     } else {
-                        (t, false)
+                        (e, false)
                     }
                 }
                 _ => (literal_set, false),
